@@ -25,15 +25,6 @@ Grow == /\ pc = "setup" /\ Len(bytes) < MaxBytes
         /\ UNCHANGED <<pc, pos, pending, chars, failed>>
 Start == /\ pc = "setup" /\ pc' = "feed" /\ UNCHANGED <<bytes, pos, pending, chars, failed>>
 
-\* consume the bytes of one chunk: [ok, chars, pending]
-RECURSIVE Consume(_, _, _)
-Consume(chunk, pend, acc) ==
-    IF chunk = <<>> THEN [ok |-> TRUE, chars |-> acc, pending |-> pend]
-    ELSE LET s == Append(pend, chunk[1]) IN
-         IF WellFormed(s) THEN Consume(Tail(chunk), <<>>, Append(acc, CodeOf(s)))
-         ELSE IF ViablePrefix(s) THEN Consume(Tail(chunk), s, acc)
-         ELSE [ok |-> FALSE, chars |-> acc, pending |-> <<>>]
-
 \* one chunk of n bytes arrives (any n: the delivery schedule)
 Feed == /\ pc = "feed" /\ pos <= Len(bytes)
         /\ \E n \in 1..(Len(bytes) - pos + 1) :
